@@ -27,7 +27,7 @@ VALUES = {
     "re": [2.0e5, 1.0e6, 8.0e6],
     "toc": [0.06, 0.12, 0.2, 0.3],
     "mach": [0.3, 0.6, 0.75, 0.85, 0.94],
-    "cl": [0.2, 0.5, 0.8],
+    "cl": [-0.6, -0.2, 0.2, 0.5, 0.8],  # a down-loaded surface (trimming tail) is an admissible input: lift increasing through zero
     "klam": [0.0, 0.05, 0.5, 1.0],
     "sweep": [0.0, 20.0, 40.0, 55.0],
     "nx": [2, 3, 5],
